@@ -1,8 +1,10 @@
 (* (a) Well-formedness of what the simplifications of Model/GlobalRw.v insert: replacement values and declarations
    are well formed (Spec/StdReader.v) when the node is and the oracle values (sorts, bodies of defined functions)
    are.  BVReduceBW and StringContainsToConcat derive the names of their declarations from a leaf of the node by
-   prefixing / suffixing it: that is a single token only if the leaf is an atom (the hypothesis is needed: a
-   string literal or a comment in that place gives a name that is read back as two tokens, see Examples.v). *)
+   prefixing / suffixing it: that is a single token only if the leaf is an atom.  Since the mutators skip a string
+   literal or a comment in that place (besides quoted symbols and, for str.contains, constants), a well-formed leaf
+   that passes their guards IS an atom: the theorems *_closed_wf need the well-formedness of the node only; the
+   versions with the hypothesis "the leaf is an atom" are kept, the stronger ones are derived from them. *)
 From DD Require Import Model.Rewrites Model.GlobalRw Spec.StdReader.
 From DD Require Import Proofs.Closure.Atoms Proofs.Closure.RwClosed Proofs.Rw.LetSubst Proofs.Rw.InlineSubst Proofs.More4.Base.
 Local Open Scope list_scope.
@@ -41,10 +43,12 @@ Proof.
 Qed.
 
 (* ---- BVReduceBW ---- *)
-Lemma rw_bv_reduce_bw_inv gs bw declared here e l g :
+(* the shape of a proposal, with all three guards on the declared name *)
+Lemma rw_bv_reduce_bw_inv_guard gs bw declared here e l g :
   rw_bv_reduce_bw gs bw declared here e = Some l -> In g l ->
   exists h s rest so w b,
     e = T (h :: L s :: rest) /\ gs (L s) = Some so /\ declared (95%N :: s) = false /\ is_piped s = false /\
+    starts_dq_semi s = false /\
     g = reduce_bw_one here (L s) so (95%N :: s) w b.
 Proof.
   unfold rw_bv_reduce_bw. intros HR Hin.
@@ -53,12 +57,38 @@ Proof.
   destruct (bw n1) as [w|]; [|discriminate].
   destruct n1 as [s|m]; [|destruct (gs (T m)); injection HR as <-; destruct Hin].
   destruct (gs (L s)) as [so|] eqn:Eso; [|injection HR as <-; destruct Hin].
-  cbv zeta in HR. destruct (is_piped s) eqn:Ep; [injection HR as <-; destruct Hin|].
+  cbv zeta in HR. fold (starts_dq_semi s) in HR.
+  destruct (is_piped s) eqn:Ep; [injection HR as <-; destruct Hin|].
+  destruct (starts_dq_semi s) eqn:Eg; [injection HR as <-; destruct Hin|].
   destruct (declared (95%N :: s)) eqn:Ed; [injection HR as <-; destruct Hin|].
   cbn [orb] in HR. injection HR as <-. apply in_map_iff in Hin as (b & <- & _).
   exists h, s, rest, so, w, b. repeat split; assumption.
 Qed.
 
+Lemma rw_bv_reduce_bw_inv gs bw declared here e l g :
+  rw_bv_reduce_bw gs bw declared here e = Some l -> In g l ->
+  exists h s rest so w b,
+    e = T (h :: L s :: rest) /\ gs (L s) = Some so /\ declared (95%N :: s) = false /\ is_piped s = false /\
+    g = reduce_bw_one here (L s) so (95%N :: s) w b.
+Proof.
+  intros HR Hin.
+  destruct (rw_bv_reduce_bw_inv_guard _ _ _ _ _ _ _ HR Hin) as (h & s & rest & so & w & b & He & Eso & Ed & Ep & _ & Hg).
+  exists h, s, rest, so, w, b. repeat split; assumption.
+Qed.
+
+(* since the guard on a leading double quote / semicolon: a proposal is made only when the declared name, a
+   well-formed leaf, is an atom *)
+Lemma rw_bv_reduce_bw_name_atom gs bw declared here e l g :
+  wf e = true -> rw_bv_reduce_bw gs bw declared here e = Some l -> In g l ->
+  forall s, nth_child e 1 = Some (L s) -> atom_ok s = true.
+Proof.
+  intros Hw HR Hin s0 Hs0.
+  destruct (rw_bv_reduce_bw_inv_guard _ _ _ _ _ _ _ HR Hin) as (h & s & rest & so & w & b & -> & _ & _ & Ep & Eg & _).
+  injection Hs0 as <-. apply leaf_atom_reduce_bw; [|exact Ep|exact Eg].
+  apply (wf_T_in _ (L s) Hw). right. now left.
+Qed.
+
+(* the hypothesis "the declared name is an atom" is kept as an argument here; it follows from wf e, see below *)
 Theorem rw_bv_reduce_bw_closed gs bw declared here e l g :
   wf e = true ->
   (forall x so, gs x = Some so -> wf so = true) ->
@@ -74,6 +104,16 @@ Proof.
   - intros r [<- | []]. unfold lf. cbn [wf forallb]. rewrite wf_idx_head by reflexivity.
     rewrite Hso, Hv. rewrite (atom_ok_leaf _ Hat). reflexivity.
   - intros d [<- | []]. apply wf_mk_decl; [exact Hv | apply wf_bv_sort_of].
+Qed.
+
+(* the stronger statement: from the well-formedness of the node alone *)
+Theorem rw_bv_reduce_bw_closed_wf gs bw declared here e l g :
+  wf e = true ->
+  (forall x so, gs x = Some so -> wf so = true) ->
+  rw_bv_reduce_bw gs bw declared here e = Some l -> In g l -> gsimp_wf g.
+Proof.
+  intros Hw Hgs HR Hin.
+  exact (rw_bv_reduce_bw_closed _ _ _ _ _ _ _ Hw Hgs (rw_bv_reduce_bw_name_atom _ _ _ _ _ _ _ Hw HR Hin) HR Hin).
 Qed.
 
 (* ---- BVMergeReducedBW ---- *)
@@ -130,6 +170,27 @@ Proof.
 Qed.
 
 (* ---- StringContainsToConcat ---- *)
+Lemma rw_str_contains_inv_guard declared e l g :
+  rw_str_contains declared e = Some l -> In g l ->
+  exists h v x,
+    e = T [h; L v; x] /\ declared (v ++ lit "_prefix") = false /\ declared (v ++ lit "_suffix") = false /\
+    is_const_leaf v = false /\ is_piped v = false /\ starts_semi v = false /\
+    g = GS [] [(e, Some (T [lf "="; L v; T [lf "str.++"; L (v ++ lit "_prefix"); x; L (v ++ lit "_suffix")]]))]
+           [mk_decl (v ++ lit "_prefix") (lf "String"); mk_decl (v ++ lit "_suffix") (lf "String")].
+Proof.
+  unfold rw_str_contains. intros HR Hin.
+  destruct (is_op e "str.contains"); [|injection HR as <-; destruct Hin].
+  destruct e as [s|[|h [|[v|m] [|x [|y r]]]]]; try (injection HR as <-; destruct Hin).
+  cbv zeta in HR. fold (starts_semi v) in HR.
+  destruct (is_const_leaf v) eqn:Ec; [injection HR as <-; destruct Hin|].
+  destruct (is_piped v) eqn:Ep; [injection HR as <-; destruct Hin|].
+  destruct (starts_semi v) eqn:Eg; [injection HR as <-; destruct Hin|]. cbn [orb] in HR.
+  destruct (declared (v ++ lit "_prefix")) eqn:E1; [injection HR as <-; destruct Hin|].
+  destruct (declared (v ++ lit "_suffix")) eqn:E2; [injection HR as <-; destruct Hin|].
+  cbn [orb] in HR. injection HR as <-. destruct Hin as [<- | []].
+  exists h, v, x. repeat split; assumption.
+Qed.
+
 Lemma rw_str_contains_inv declared e l g :
   rw_str_contains declared e = Some l -> In g l ->
   exists h v x,
@@ -138,18 +199,24 @@ Lemma rw_str_contains_inv declared e l g :
     g = GS [] [(e, Some (T [lf "="; L v; T [lf "str.++"; L (v ++ lit "_prefix"); x; L (v ++ lit "_suffix")]]))]
            [mk_decl (v ++ lit "_prefix") (lf "String"); mk_decl (v ++ lit "_suffix") (lf "String")].
 Proof.
-  unfold rw_str_contains. intros HR Hin.
-  destruct (is_op e "str.contains"); [|injection HR as <-; destruct Hin].
-  destruct e as [s|[|h [|[v|m] [|x [|y r]]]]]; try (injection HR as <-; destruct Hin).
-  cbv zeta in HR.
-  destruct (is_const_leaf v) eqn:Ec; [injection HR as <-; destruct Hin|].
-  destruct (is_piped v) eqn:Ep; [injection HR as <-; destruct Hin|]. cbn [orb] in HR.
-  destruct (declared (v ++ lit "_prefix")) eqn:E1; [injection HR as <-; destruct Hin|].
-  destruct (declared (v ++ lit "_suffix")) eqn:E2; [injection HR as <-; destruct Hin|].
-  cbn [orb] in HR. injection HR as <-. destruct Hin as [<- | []].
+  intros HR Hin.
+  destruct (rw_str_contains_inv_guard _ _ _ _ HR Hin) as (h & v & x & He & H1 & H2 & Hc & Hp & _ & Hg).
   exists h, v, x. repeat split; assumption.
 Qed.
 
+(* since the guard on a leading semicolon: a proposal is made only when the first operand, if a well-formed leaf,
+   is an atom *)
+Lemma rw_str_contains_operand_atom declared e l g :
+  wf e = true -> rw_str_contains declared e = Some l -> In g l ->
+  forall s, nth_child e 1 = Some (L s) -> atom_ok s = true.
+Proof.
+  intros Hw HR Hin s0 Hs0.
+  destruct (rw_str_contains_inv_guard _ _ _ _ HR Hin) as (h & v & x & -> & _ & _ & Ec & Ep & Eg & _).
+  injection Hs0 as <-. apply leaf_atom_str_contains; [|exact Ec|exact Ep|exact Eg].
+  apply (wf_T_in _ (L v) Hw). right. now left.
+Qed.
+
+(* the hypothesis "the operand is an atom" is kept as an argument here; it follows from wf e, see below *)
 Theorem rw_str_contains_closed declared e l g :
   wf e = true ->
   (forall s, nth_child e 1 = Some (L s) -> atom_ok s = true) ->
@@ -166,6 +233,14 @@ Proof.
     pose proof (atom_ok_leaf _ Hat) as Hv. unfold lf. cbn [wf forallb].
     repeat (apply andb_true_intro; split); first [exact H1 | exact H2 | assumption | reflexivity].
   - intros d [<- | [<- | []]]; apply wf_mk_decl; first [assumption | reflexivity].
+Qed.
+
+(* the stronger statement: from the well-formedness of the node alone *)
+Theorem rw_str_contains_closed_wf declared e l g :
+  wf e = true -> rw_str_contains declared e = Some l -> In g l -> gsimp_wf g.
+Proof.
+  intros Hw HR Hin.
+  exact (rw_str_contains_closed _ _ _ _ Hw (rw_str_contains_operand_atom _ _ _ _ Hw HR Hin) HR Hin).
 Qed.
 
 (* ---- EliminateVariable: every value is an operand of the equality ---- *)
